@@ -5,7 +5,8 @@
 From Coq Require Import ZArith List Bool Permutation Lia.
 From ScV Require Import Base.CInt Gen.HashResize.
 From ScV Require Import C09.HashModel C09.HashProofs C09.PoolModel C09.PoolProofs C09.ListModel C09.ListProofs.
-From ScV Require Import C09.HashArrayModel C09.HashArrayProofs.
+From ScV Require Import C09.HashArrayModel C09.HashArrayProofs C09.RecycleModel C09.RecycleProofs.
+From ScV Require Import C09.KeyValueModel C09.KeyValueProofs Gen.AvlBalance C09.AvlModel C09.AvlProofs.
 Import ListNotations.
 Local Open Scope Z_scope.
 
@@ -142,6 +143,105 @@ Theorem C09_list_refines :
 Proof. exact list_refines. Qed.
 Print Assumptions C09_list_refines.
 
+(* ---------- recycle array: a slot allocator whose live positions never move ---------- *)
+(* The abstract state knows only the map live position -> last written value and the number hw of positions ever
+   handed out.  For every legal history (only live positions are removed, written, read) and every junk content of
+   fresh slots: an insert returns a position that is not live, at most hw, and equal to hw (array grows) exactly
+   when no freed position exists; remove and read return the value last written to that position (live
+   contents never move); elem_count is the number of live positions and slots = live + freed. *)
+Theorem C09_recycle_refines :
+  forall ops, rlegal_run ra_init ([], 0) ops -> routs_ok ra_init ([], 0) ops.
+Proof. exact recycle_refines. Qed.
+Print Assumptions C09_recycle_refines.
+
+Theorem C09_recycle_invariant :
+  forall ops, rlegal_run ra_init ([], 0) ops ->
+    let r := fst (rrun_from ra_init ops) in
+    ra_count r + Z.of_nat (length (ra_f r)) = Z.of_nat (length (ra_a r)) /\ NoDup (ra_f r) /\ 0 <= ra_count r /\
+    Forall (fun p => 0 <= p < Z.of_nat (length (ra_a r))) (ra_f r).
+Proof. exact recycle_invariant. Qed.
+Print Assumptions C09_recycle_invariant.
+
+(* ---------- key-value store: a typed map, for EVERY hash function on keys ---------- *)
+(* Entries (key, type, value) live in the hash table model above, hashed and compared by key only.  For every
+   history: all results (value or default, type, status of the checked getter) equal those of the typed map, an
+   iteration reports every binding exactly once (any order, keys equal in the sense of keq), the number of table
+   elements and of allocated entries both equal the number of bindings (no entry leaks, none is freed twice),
+   and no two stored entries have equal keys. *)
+Theorem C09_keyvalue_refines :
+  forall (K : Type) (hfk : K -> Z) (keq : K -> K -> bool),
+    (forall a, keq a a = true) -> (forall a b, keq a b = true -> keq b a = true) ->
+    (forall a b c, keq a b = true -> keq b c = true -> keq a c = true) ->
+    (forall a b, keq a b = true -> hfk a = hfk b) ->
+  forall ops, klegal_run K keq [] ops ->
+    let '(s, outs) := krun_from K hfk keq (kv_new K) ops in
+    let '(m, mouts) := trun_from K keq [] ops in
+    Forall2 (kout_equiv K keq) outs mouts /\
+    (exists l, Permutation (kv_entries K s) l /\
+               Forall2 (entry_equiv K keq) l (map (fun b => mkE K (fst b) (fst (snd b)) (snd (snd b))) m)) /\
+    hcount (entry K) (kv_hash K s) = Z.of_nat (length m) /\
+    kv_pool K s = Z.of_nat (length m) /\
+    (forall a b, In a (kv_entries K s) -> In b (kv_entries K s) -> keq (e_key K a) (e_key K b) = true -> a = b) /\
+    (forall i j a b, nth_error m i = Some a -> nth_error m j = Some b -> keq (fst a) (fst b) = true -> i = j).
+Proof. exact kv_refines. Qed.
+Print Assumptions C09_keyvalue_refines.
+
+(* ---------- AVL tree: a set in ascending order with rank queries and a threaded in-order list ---------- *)
+(* cmp is any total order comparator (sign antisymmetric, < transitive, equal items compare alike).  The model
+   rotates according to the balance decision GENERATED from avl_check_balance / lg; the theorems hold whatever
+   that decision is (balance is a performance property and is not claimed).  For every history of insert,
+   delete, search, search_closest, avl_at, avl_index, count, foreach, forward / backward list traversal, clear:
+   the in-order sequence of the tree and the prev/next list both equal the strictly ascending list of the set,
+   every stored count is the size of its subtree, avl_count is the cardinality, and every output equals the
+   set's (insert reports novelty, delete/search return exactly the present element, avl_at u is the u-th smallest,
+   avl_index is the rank, search_closest returns the equal element or the predecessor / successor). *)
+Theorem C09_avl_refines :
+  forall (key : Type) (cmp : key -> key -> Z),
+    (forall a b, Z.sgn (cmp a b) = - Z.sgn (cmp b a)) ->
+    (forall a b c, cmp a b < 0 -> cmp b c < 0 -> cmp a c < 0) ->
+    (forall a b c, cmp a b = 0 -> Z.sgn (cmp a c) = Z.sgn (cmp b c)) ->
+  forall ops : list (vop key),
+    let '(st, outs) := vrun_from key cmp (avl_new key) ops in
+    let '(s, souts) := srun_from key cmp [] ops in
+    inorder key (a_top key st) = s /\ a_thread key st = s /\ sorted key cmp s /\ wfc key (a_top key st) /\
+    cnt key (a_top key st) = Z.of_nat (length s) /\ vouts_ok key cmp [] ops outs.
+Proof. exact avl_refines. Qed.
+Print Assumptions C09_avl_refines.
+
+(* avl_at and avl_index are inverse rank queries on every tree with exact counts and ascending in-order *)
+Theorem C09_avl_at_index :
+  forall (key : Type) (cmp : key -> key -> Z),
+    (forall a b, Z.sgn (cmp a b) = - Z.sgn (cmp b a)) ->
+    (forall a b c, cmp a b < 0 -> cmp b c < 0 -> cmp a c < 0) ->
+    (forall a b c, cmp a b = 0 -> Z.sgn (cmp a c) = Z.sgn (cmp b c)) ->
+  forall (t : tree key) (u : Z) (y : key), wfc key t -> sorted key cmp (inorder key t) ->
+    at_ key t u = Some y -> index key cmp t y 0 = Some u.
+Proof. exact at_index. Qed.
+Print Assumptions C09_avl_at_index.
+
+Theorem C09_avl_index_at :
+  forall (key : Type) (cmp : key -> key -> Z),
+    (forall a b, Z.sgn (cmp a b) = - Z.sgn (cmp b a)) ->
+    (forall a b c, cmp a b < 0 -> cmp b c < 0 -> cmp a c < 0) ->
+    (forall a b c, cmp a b = 0 -> Z.sgn (cmp a c) = Z.sgn (cmp b c)) ->
+  forall (t : tree key) (x : key) (i : Z), wfc key t -> sorted key cmp (inorder key t) ->
+    index key cmp t x 0 = Some i -> exists y, at_ key t i = Some y /\ cmp x y = 0.
+Proof. exact index_at. Qed.
+Print Assumptions C09_avl_index_at.
+
+(* rotations keep the in-order sequence, whatever the balance decision *)
+Theorem C09_avl_rebalance_inorder :
+  forall (key : Type) (l : tree key) (x : key) (r : tree key),
+    inorder key (rebal key l x r) = inorder key l ++ x :: inorder key r.
+Proof. exact inorder_rebal. Qed.
+Print Assumptions C09_avl_rebalance_inorder.
+
+(* with the decision generated from the source, a rotation never goes through a missing (NULL) child *)
+Theorem C09_avl_rotation_children_exist :
+  forall (key : Type) (l r : tree key), wfc key l -> wfc key r -> rebal_stuck key l r = false.
+Proof. exact rebal_never_stuck. Qed.
+Print Assumptions C09_avl_rotation_children_exist.
+
 (* ---------- the hypotheses are satisfiable ---------- *)
 Example C09_ex_hash_legal : Forall (legal_op (Z * Z) (fun a b => fst a =? fst b))
   [HInsert _ (1, 0); HInsert _ (1, 5); HAssign _ (1, 0) (1, 7); HRemove _ (1, 9); HForeach].
@@ -152,3 +252,10 @@ Example C09_ex_pool_inv : PoolInv (mempool_new 16 false) [].
 Proof. apply mempool_new_inv. reflexivity. Qed.
 Example C09_ex_list_legal : seq_legal_run [] [LAppend 1; LPrepend 2; LInsert 1 3; LRemove 0; LPop; LDump; LReset].
 Proof. cbn. repeat split; try discriminate; lia. Qed.
+Example C09_ex_recycle_legal : rlegal_run ra_init ([], 0) [RInsert 9 1; RInsert 9 2; RRemove 0; RInsert 9 3; RRead 0; RRead 1; RCount].
+Proof. cbn. repeat split; discriminate. Qed.
+Example C09_ex_kv_legal : klegal_run Z Z.eqb [] [KSet Z 1 5 7; KSet Z 1 5 8; KGet Z 1 5 0; KPut Z 3 5 1; KGet Z 3 5 0; KUnset Z 5].
+Proof. cbn. repeat split; try lia; intros; try congruence. Qed.
+Example C09_ex_avl_cmp : (forall a b, Z.sgn (a - b) = - Z.sgn (b - a)) /\ (forall a b c : Z, a - b < 0 -> b - c < 0 -> a - c < 0) /\
+  (forall a b c : Z, a - b = 0 -> Z.sgn (a - c) = Z.sgn (b - c)).
+Proof. cbn. repeat split; try lia; try (intros; congruence). Qed.
